@@ -2,7 +2,7 @@
    Print Assumptions.  The driver parses this file's output. *)
 From ZV.Common Require Import Base Run.
 From Coq Require Import Sorting.Permutation Sorting.Sorted.
-From ZV.C12 Require Import Spec Model ProofsOrder ProofsSearch ProofsBuild ProofsKasai.
+From ZV.C12 Require Import Spec Model ProofsOrder ProofsSearch ProofsBuild ProofsKasai ProofsAll.
 Open Scope nat_scope.
 
 (* the order used by the spec is the textbook one: proper prefix, or smaller at the first difference *)
@@ -111,3 +111,35 @@ Theorem bwt_perm : forall t sa, is_sa t sa -> Permutation (bwt t sa) t.
 Proof. exact bwt_perm_proof. Qed.
 Check bwt_perm : forall t sa, is_sa t sa -> Permutation (bwt t sa) t.
 Print Assumptions bwt_perm.
+
+(* the property as one statement about the modelled pipeline: build, then LCP, BWT and search on its result *)
+Theorem c12_pipeline :
+  forall (sais : list N -> list nat) (analyse : list N -> alg) c t,
+    (select_algorithm analyse c t = SAIS \/ select_algorithm analyse c t = Adaptive -> is_sa t (sais t)) ->
+    let sa := build sais analyse c t in
+    is_sa t sa /\
+    (forall sa', is_sa t sa' -> sa' = sa) /\
+    kasai t sa = Some (lcp_spec t sa) /\
+    bwt t sa = bwt_spec t sa /\
+    (forall p l r, search_range t sa p = (l, r) ->
+       l <= r <= length sa /\
+       forall k, k < length sa -> (l <= k < r <-> is_prefix p (suffix t (nth k sa 0)))) /\
+    (forall p l n, search t sa p = (l, n) ->
+       (forall i, In i (firstn n (skipn l sa)) <-> occurs t p i) /\
+       n = length (filter (occursb t p) (seq 0 (length t)))).
+Proof. exact c12_pipeline_proof. Qed.
+Check c12_pipeline :
+  forall (sais : list N -> list nat) (analyse : list N -> alg) c t,
+    (select_algorithm analyse c t = SAIS \/ select_algorithm analyse c t = Adaptive -> is_sa t (sais t)) ->
+    let sa := build sais analyse c t in
+    is_sa t sa /\
+    (forall sa', is_sa t sa' -> sa' = sa) /\
+    kasai t sa = Some (lcp_spec t sa) /\
+    bwt t sa = bwt_spec t sa /\
+    (forall p l r, search_range t sa p = (l, r) ->
+       l <= r <= length sa /\
+       forall k, k < length sa -> (l <= k < r <-> is_prefix p (suffix t (nth k sa 0)))) /\
+    (forall p l n, search t sa p = (l, n) ->
+       (forall i, In i (firstn n (skipn l sa)) <-> occurs t p i) /\
+       n = length (filter (occursb t p) (seq 0 (length t)))).
+Print Assumptions c12_pipeline.
